@@ -10,7 +10,7 @@ Emits theories/Gen/LoadGen.v:
 
 The site table follows the source: a site is "on" iff its panicking form (a regex over the
 whitespace-free text of one named function) is present.  Every unwrap-like token
-(.unwrap() .expect( panic! unreachable! [..len()-1] `-= 1`) of json_read.rs must be accounted for by
+(.unwrap() .expect( panic! unreachable! todo! assert! x[i] `-= 1`) of json_read.rs must be accounted for by
 exactly one pattern (site or benign); anything else raises GenError, so a new unwrap or a reshaped
 function cannot go unnoticed.
 """
@@ -18,7 +18,8 @@ import re
 import vlib
 from gen_tables import GenError, fn_body, write_if_changed, strip_comments
 
-UNWRAP_LIKE = re.compile(r"\.unwrap\(\)|\.expect\(|panic!|unreachable!|len\(\)-1\]|-=1\b")
+UNWRAP_LIKE = re.compile(r"\.unwrap\(\)|\.expect\(|panic!|unreachable!|todo!|unimplemented!|assert!|"
+                         r"\w\[(?![^\]]*\.\.)[^\]]*\]|-=1\b")   # index expressions, but not range slices
 
 # (site id, function, regex on whitespace-free function text, number of unwrap-like tokens it owns)
 SITES = [
@@ -168,11 +169,10 @@ def gen_load():
     if whole != total_in_fns:
         raise GenError(f"json_read.rs: {whole} unwrap-like tokens in the file, {total_in_fns} inside the modelled "
                        f"functions — a new function with panic sites appeared")
-    # every modelled function must still exist and no new pub fn may appear
+    # functions other than the modelled ones are tolerated only because the whole-file accounting above
+    # proves they contain no unwrap-like token (e.g. small `as_str(value, what)?` helpers of a repair)
     fns = re.findall(r"\bfn\s+(\w+)", src)
     extra = sorted(set(fns) - set(FUNCTIONS))
-    if extra:
-        raise GenError(f"json_read.rs: functions not modelled: {extra}")
 
     msrc = strip_comments(vlib.repo_file("runtime/src/story/mod.rs"))
     mcur = re.search(r"pub const INK_VERSION_CURRENT\s*:\s*i32\s*=\s*(\d+)\s*;", msrc)
@@ -221,5 +221,5 @@ def gen_load():
     facts = {"load.sites_on": sorted(i for i in ids if flags[i]),
              "load.sites_off": sorted(i for i in ids if not flags[i]),
              "load.ink_version": [int(mmin.group(1)), int(mcur.group(1))],
-             "load.cmd_names": len(cmds), "load.nop_names": len(nops)}
+             "load.cmd_names": len(cmds), "load.nop_names": len(nops), "load.helper_fns": extra}
     return changed, facts
